@@ -357,6 +357,8 @@ def run(chk):
     c17_copylen.run(chk, prog)
     c17_copylen.run_addwrap(chk, prog)
     _cstr_rule(chk, prog)
+    from rules import c17_boot
+    c17_boot.run(chk)
 
 
 UNBOUNDED_CSTR = ("strchr", "strrchr", "strlen", "strcmp", "strstr", "strcpy", "strcat", "strdup", "strpbrk", "strspn", "strcspn",
